@@ -23,14 +23,14 @@ func (*prop) ID() string    { return "C12" }
 func (*prop) Level() string { return "exploration" }
 func (*prop) Rule() string {
 	return "source files are generated from a layout grammar: sequences of type specs (grouped / ungrouped), struct fields (single, multi-name, embedded), const and var specs (grouped / ungrouped), each with doc in {none, 1-3 line comments (optionally with one interior blank comment line), one-line block comment, multi-line block comment, lines mixed with tag lines, tag lines only, detached by a blank line} x trailing in {none, line comment, block comment}, " +
-		"so that every adjacency occurs (trailing comment on line L and an undocumented declaration on L+1; doc then trailing; detached comment then declaration ...). Every comment carries a unique marker. The files are loaded with the real types.Load and every object is resolved through the type checker's scope; " +
+		"so that every adjacency occurs (trailing comment on line L and an undocumented declaration on L+1; a trailing comment on the last line of a multi-line declaration - `} // c` after a struct or composite literal, a continued const expression - directly above an undocumented declaration; doc then trailing; detached comment then declaration ...). Every comment carries a unique marker. The files are loaded with the real types.Load and every object is resolved through the type checker's scope; " +
 		"Doc(pos) and Comment(pos) are compared with the expectation derived from the layout the harness wrote (not from go/ast). Separately ExtractCommentTags is run on generated line lists (default and custom markers; keys with '=' / space / neither; repeated keys; leading/trailing spaces; empty key) against a reference splitter written from the statement. " +
 		"Non-trivial = a declaration whose previous line carries a trailing comment, or which has a doc with tag lines, or a detached comment; distinct by hash of (declaration kind, doc shape, trailing shape, previous line's trailing shape, position in group)."
 }
 func (*prop) Assumptions() []string {
 	return []string{
 		"comment text avoids go: prefixes, tabs, leading / trailing / consecutive blank comment lines and trailing blanks (go/ast's Text() normalises those; not part of the statement); single interior blank lines are generated and expected back as \"\"",
-		"multi-line block comments are written unindented; trailing comments are only generated on single-line declarations",
+		"multi-line block comments are written unindented; for a trailing comment on the LAST line of a multi-line declaration Comment() may return it or nothing (the statement speaks of the declaration's own line; go/ast attaches it to the declaration) - but it must never be the next declaration's Doc()",
 		"trusted: go list / go/packages to load the scratch module, go/types scopes to find the objects",
 	}
 }
@@ -76,6 +76,9 @@ type expect struct {
 	Doc      []string            `json:"doc"`
 	Tags     map[string][]string `json:"tags"`
 	Trailing []string            `json:"trailing"`
+	// AltTrailing: a second acceptable Comment() answer (the trailing comment on the LAST line of a multi-line
+	// declaration: go/ast attaches it to the declaration, the statement speaks of "the declaration's own line")
+	AltTrailing []string `json:"alt_trailing,omitempty"`
 	Shape    string              `json:"shape"`
 	Line     int                 `json:"line"`
 }
@@ -91,6 +94,7 @@ type gen struct {
 	// trailing shape of the previous emitted source line ("" if none / not a declaration line)
 	prevTrailing string
 	nameN        int
+	last         []*expect
 }
 
 func (g *gen) emit(s string) {
@@ -212,12 +216,16 @@ func (g *gen) trailing() (string, []string, string) {
 	return "", nil, "none"
 }
 
-func (g *gen) record(kind, owner string, names []string, d docResult, tr []string, trShape string, posInGroup string) {
+func (g *gen) record(kind, owner string, names []string, d docResult, tr []string, trShape string, posInGroup string) []*expect {
+	var es []*expect
+	defer func() { g.last = es }()
 	for _, n := range names {
 		e := &expect{Pkg: g.pkg, File: g.file, Kind: kind, Owner: owner, Name: n, Doc: d.lines, Tags: d.tags, Trailing: tr, Line: g.line,
 			Shape: fmt.Sprintf("%s|doc=%s|trail=%s|prev=%s|%s", kind, d.shape, trShape, g.prevTrailing, posInGroup)}
 		g.out = append(g.out, e)
+		es = append(es, e)
 	}
+	return es
 }
 
 var scalarTypes = []string{"int", "string", "bool", "float64", "[]byte", "map[string]int"}
@@ -266,7 +274,7 @@ func (g *gen) file1(pkg, file string, decls int) string {
 	g.emit("package " + pkg)
 	g.emit("")
 	for i := 0; i < decls; i++ {
-		switch g.r.Intn(7) {
+		switch g.r.Intn(8) {
 		case 0: // ungrouped scalar type, single line: may carry a trailing comment
 			d := g.doc("", true)
 			if strings.HasPrefix(d.shape, "detached") {
@@ -290,10 +298,21 @@ func (g *gen) file1(pkg, file string, decls int) string {
 			}
 			n := g.name("S")
 			g.emit("type " + n + " struct {")
-			g.record("type", "", []string{n}, d, nil, "none", "ungrouped")
+			typeExp := g.record("type", "", []string{n}, d, nil, "none", "ungrouped")
 			g.fields(n)
-			g.emit("}")
-			g.prevTrailing = ""
+			// a trailing comment on the LAST line of a multi-line declaration (not the declaration's own line):
+			// it is nobody's Comment() and must not become the next declaration's Doc()
+			if g.r.Intn(2) == 0 {
+				mk := g.mark()
+				g.emit("} // " + mk)
+				for _, e := range typeExp {
+					e.AltTrailing = []string{mk}
+				}
+				g.prevTrailing = "line-after-multiline"
+			} else {
+				g.emit("}")
+				g.prevTrailing = ""
+			}
 		case 2: // grouped types
 			g.emit("type (")
 			g.prevTrailing = ""
@@ -340,6 +359,41 @@ func (g *gen) file1(pkg, file string, decls int) string {
 			}
 			g.emit(")")
 			g.prevTrailing = ""
+		case 7: // multi-line var (composite literal) / continued const expression with a trailing comment on the last line
+			d := g.doc("", true)
+			if strings.HasPrefix(d.shape, "detached") {
+				d.lines, d.tags = nil, map[string][]string{}
+			}
+			if d.shape != "none" {
+				g.prevTrailing = ""
+			}
+			n := g.name("M")
+			tr := ""
+			trs := ""
+			var alt []string
+			if g.r.Intn(3) != 0 {
+				mk := g.mark()
+				tr = " // " + mk
+				alt = []string{mk}
+				trs = "line-after-multiline"
+			}
+			if g.r.Intn(2) == 0 {
+				g.emit("var " + n + " = []int{")
+				for _, e := range g.record("var", "", []string{n}, d, nil, "none", "ungrouped-multiline") {
+					e.AltTrailing = alt
+				}
+				g.emit("\t1,")
+				g.emit("\t2,")
+				g.emit("}" + tr)
+			} else {
+				g.emit("const " + n + " = 1 +")
+				for _, e := range g.record("const", "", []string{n}, d, nil, "none", "ungrouped-multiline") {
+					e.AltTrailing = alt
+				}
+				g.emit("\t2 +")
+				g.emit("\t3" + tr)
+			}
+			g.prevTrailing = trs
 		case 5, 6: // ungrouped const / var
 			kw := []string{"const", "var"}[g.r.Intn(2)]
 			d := g.doc("", true)
@@ -447,7 +501,7 @@ func (p *prop) runLayout(c core.Case, w *core.Worker, res *core.Result) {
 		if !sameTags(tags, e.Tags) {
 			res.Fail("doc-tags", e.Shape, fmt.Sprintf("%s %s (line %d of %s/%s): Doc tags = %v, want %v\nsource:\n%s", e.Kind, e.Name, e.Line, e.Pkg, e.File, tags, e.Tags, ctx()), e)
 		}
-		if !sameLines(tr, e.Trailing) {
+		if !sameLines(tr, e.Trailing) && !(len(e.AltTrailing) > 0 && sameLines(tr, e.AltTrailing)) {
 			res.Fail("trailing", e.Shape, fmt.Sprintf("%s %s (line %d of %s/%s): Comment = %q, want %q\nsource:\n%s", e.Kind, e.Name, e.Line, e.Pkg, e.File, tr, e.Trailing, ctx()), e)
 		}
 		res.Count("attribution_assertions", 3)
